@@ -45,7 +45,7 @@ PREFIXES = ['', 'r', 'R', 'u', 'U']
 ABOVE = ['x = 1', 'Q other Q', '# c']
 MENU = ['', 'Example:', 'Args:', '    x (int): prose', 'prose text', '    >>> a = 1', '    >>> print(a)', '    1', '>>> b = 2', 'Ignore:', 'Script:', '    2']
 BOUNDS = {'quick': 'docstring_start: literal of 1..2 lines, 0..2 escaped newlines, 0..2 lines above, indent 0 or 4, texts <=1 char; file_lines: 3 body lines from a menu of 7; freeform_offset: 4 elements with unbounded line counts; offsets_real: 3 lines from a menu of %d; failure_offset: as C09 quick' % len(MENU),
-          'thorough': 'docstring_start: 1..3 lines, texts <=2; file_lines: 4 body lines; freeform_offset: 5 elements; offsets_real: 4 lines'}
+          'thorough': 'docstring_start: 1..3 lines, texts <=2; file_lines: 3 body lines (as quick; 4 lines not validated end to end, withdrawn); freeform_offset: 5 elements; offsets_real: 4 lines'}
 OUTSIDE = ('docstring_start: text -> AST (CPython parser: lineno / end_lineno of the docstring node are inputs; file_lines uses the real parser); the PyPy / pre-3.8 branches of the workaround '
            '(unreachable on this interpreter); more than 2 escaped newlines; file_lines: only the menu lines, one docstring per module')
 ASSUMPTIONS = ['the texts around the quotes do not contain the literal\'s own quote style (it would end the literal)',
@@ -62,8 +62,8 @@ def jobs(tier):
              'bounds': '%d elements; want and text line counts unbounded integers, 1..2 source lines per part' % (4 if q else 5)},
             {'ob': 'offsets_real', 'harness': 'real', 'k': 3 if q else 4, 'splits': [2, 4, 6, 8], 'query_timeout_s': 60,
              'bounds': '%d lines from a menu of %d, styles auto/google/freeform' % (3 if q else 4, len(MENU))},
-            {'ob': 'file_lines', 'harness': 'file', 'k': 3 if q else 4, 'splits': [2, 4, 6, 8], 'query_timeout_s': 60,
-             'bounds': 'docstring body of %d lines from a menu of %d (blank, prose, prose with an escaped newline, prose with a backslash continuation, statement, statement with want, google header), function / method / decorated function, 0 or 2 lines above, raw or plain prefix, both quote styles, opening line shared or not, styles auto/google/freeform' % (3 if q else 4, len(FMENU))},
+            {'ob': 'file_lines', 'harness': 'file', 'k': 3, 'splits': [2, 4, 6, 8], 'query_timeout_s': 60,
+             'bounds': 'docstring body of %d lines from a menu of %d (blank, prose, prose with an escaped newline, prose with a backslash continuation, statement, statement with want, google header), function / method / decorated function, 0 or 2 lines above, raw or plain prefix, both quote styles, opening line shared or not, styles auto/google/freeform' % (3, len(FMENU))},
             dict(j9, ob='failure_offset', harness='fail')]
 
 
